@@ -6,8 +6,8 @@ package block
 import (
 	"bytes"
 	"context"
-	"encoding/binary"
 	crand "crypto/rand"
+	"encoding/binary"
 	"errors"
 	"fmt"
 	"sync"
@@ -17,6 +17,7 @@ import (
 	ds "github.com/ipfs/go-datastore"
 	logging "github.com/ipfs/go-log/v2"
 	"github.com/libp2p/go-libp2p/core/crypto"
+	"google.golang.org/protobuf/proto"
 
 	coreda "github.com/evstack/ev-node/core/da"
 	coresequencer "github.com/evstack/ev-node/core/sequencer"
@@ -592,7 +593,6 @@ func zzRaw(t types.Txs) [][]byte {
 	return out
 }
 
-
 // zzInvState builds an arbitrary node state satisfying Inv_node with chain
 // height H >= I: a committed block at H (arbitrary time, app hash, 0..1 txs),
 // signed by the genesis key; lastState agrees with it.  Returns the manager.
@@ -613,7 +613,6 @@ func zzInvState(e *zzEnv, H uint64) (*Manager, *zzSlot) {
 	return e.zzManager(st), sl
 }
 
-
 func zzHeights() (uint64, uint64) {
 	I := zzsym.U64("I")
 	zzsym.Assume(I >= 1 && I <= 1<<40)
@@ -622,10 +621,17 @@ func zzHeights() (uint64, uint64) {
 	return I, H
 }
 
-
 func zzLE(x uint64) []byte {
 	b := make([]byte, 8)
 	binary.LittleEndian.PutUint64(b, x)
 	return b
 }
 
+func zzHeaderBlob(h *types.SignedHeader) []byte {
+	p, err := h.ToProto()
+	if err != nil {
+		return nil
+	}
+	b, _ := proto.Marshal(p)
+	return b
+}
